@@ -379,7 +379,6 @@ theorem evaluateConcat_sound {E : EvalOps N} {call : CallFn N} {ρ : ExtOracle N
   · trivial
 
 theorem evaluateEqual_sound {E : EvalOps N} {vl vr : LuaValue N} {a b : Val N} (hl : VM vl a) (hr : VM vr b)
-    (hok : numEqOK E vl vr = true)
     (hd : vl = .table → vr = .table → a ≠ b) (hf : vl = .function → vr = .function → a ≠ b) :
     VM (evaluateEqual E vl vr) (.bool (rawEq a b)) := by
   cases vl <;> cases vr <;> simp only [evaluateEqual] <;> (try trivial) <;> simp only [VM] at hl hr ⊢ <;>
@@ -391,8 +390,7 @@ theorem evaluateEqual_sound {E : EvalOps N} {vl vr : LuaValue N} {a b : Val N} (
     have : t1 ≠ t2 := fun h => this (by rw [h])
     simp [this]
   · -- number, number
-    simp only [numEqOK, beq_iff_eq] at hok
-    simp only [rawEq, ← hok]
+    simp only [rawEq]
     exact VM.ofBool _
   · -- string, string
     simp only [rawEq]
